@@ -152,7 +152,9 @@ class CancelOracle(Monitor):
                         w.probe("C12.e_deleted")
         if not c.dispo and not c.metadata_only and self.md_accepted and w.dst_bytes() is None:
             w.violate("C12.e_deleted_without_disposition", f"step={rec.pre.step}->{rec.post.step}", "")
-        if rec.inb_kind == "MD" and rec.exc is None and w.dst_bytes() is not None:
+        if rec.inb_kind == "MD" and any(i[0] == "metadata_recv" for i in rec.inds) and w.dst_bytes() is not None:
+            # accepted = the Metadata-Recv indication was delivered (a Metadata PDU that arrives in a step which
+            # ignores it binds nothing; a file of that name may have existed before the transaction)
             self.md_accepted = True
         if fins:
             self.dst_finished_delivered = True  # completion is also visible through the Finished PDU
